@@ -196,6 +196,20 @@ class Interp:
                 arg = np.empty(len(els), dtype=object)
                 for i_, e_ in enumerate(els):
                     arg[i_] = e_
+            elif cont == "copies-of-current":
+                # NEW track objects that carry the same label and (almost) the same data as the ones the block holds: the assignment
+                # installs exactly these objects - not "nothing, it looks the same"
+                import copy as _copy
+
+                els = []
+                for j, old in enumerate(self.model):
+                    new = _copy.deepcopy(old)
+                    if j % 2 and self.t == "force3D":
+                        new.force = new.force * np.float32(1.000004)     # a gain correction of 4 parts per million
+                    elif j % 2:
+                        new.data = new.data * np.float32(1.000004)
+                    els.append(new)
+                arg, all_valid = list(els), True
             elif cont == "twice" and all_valid and els:
                 els = els + [els[0]]      # the same (valid) track object twice: exactly that list must be installed
                 arg = list(els)
@@ -294,7 +308,7 @@ def ops(t):
     elems = st.lists(st.sampled_from(["right"] * 6 + ["resized-right"] + KINDS_BAD), max_size=6)
     assign = st.fixed_dictionaries({"op": st.just("assign"), "elems": elems,
                                     "container": st.sampled_from(["list", "list", "tuple", "generator", "generator-raises", "non-iterable", "self", "object-array", "twice",
-                                                                 "self-reversed", "self-iter", "self-filter", "self-chain"])})
+                                                                 "self-reversed", "self-iter", "self-filter", "self-chain", "copies-of-current", "copies-of-current"])})
     lend = st.fixed_dictionaries({"op": st.just("lend"), "k": st.integers(0, 5)})
     return st.one_of(add, add, assign, assign, assign, lend)
 
